@@ -25,15 +25,18 @@ structure MxEnv where
   clocks : List MxClock := []
   pending : List MxClock := []
 
-def tickLoop : Nat → Float → Nat → Float × Nat
-  | 0, t, k => (t, k)
-  | fuel + 1, t, k => if t >= 1.0 then tickLoop fuel (t - 1.0) (k + 1) else (t, k)
+/-- mirrors: the tick counting of clock.rs::Clock::update (all the whole ticks at once) -/
+def tickCount (t : Float) (k : Nat) : Float × Nat :=
+  if t >= 1.0 then
+    let w := t.floor
+    (if w.isFinite then t - w else 0.0, KOps.satU64 (α := Float) (k + w.toUInt64.toNat))
+  else (t, k)
 
 def MxClock.update (c : MxClock) (dt : Float) : MxClock :=
   if !c.ticking then c
   else
     let c := if !c.started then { c with started := true, ticks := 0, frac := 0.0 } else c
-    let r := tickLoop 1048576 (c.frac + c.tps * dt) c.ticks
+    let r := tickCount (c.frac + c.tps * dt) c.ticks
     { c with frac := r.1, ticks := r.2 }
 
 def MxClock.onStart (c : MxClock) : MxClock :=
